@@ -133,6 +133,10 @@ def disagreement_is_failing_input(pid, broken):
     for kind, msg in broken:
         if kind == "correspondence" and "impl:  PANIC" in msg and pid in PANIC_IS_VIOLATION:
             return True
+        # C08 is about the codec itself: the real decoder/encoder disagreeing with the independent
+        # implementation of the documented layout on a concrete byte string / message is the failing input
+        if pid == "C08" and kind == "correspondence" and re.search(r"op:\s+(DECODE|ENCODE) ", msg):
+            return True
     return False
 
 
